@@ -23,6 +23,26 @@ var c10Prelude = []string{
 	"fdeep = func(n) {fdeep(n + 1) + 1}",
 	"fpanic = func() {fadd(1, fdeep(1))}",
 	"fbig = func() {len([1] * 4000000000000)}",
+	"fcount = func(n) {if n <= 0 {return 0}; 1 + fcount(n - 1)}",
+}
+
+// c10DeepN: the largest n for which fcount(n) works in a fresh session with the harness' depth limit, minus a margin of
+// one call; calibrated once per run on the tree under test (the depth cost of a call is not part of the property).
+var c10DeepN = -1
+
+func c10Calibrate() int {
+	opt := RunOpt{MaxDepth: 300, Timeout: 2 * time.Second}
+	lo, hi := 1, 300
+	for lo < hi {
+		mid := (lo + hi + 1) / 2
+		obs, _ := runHistory(append(append([]string{}, c10Prelude...), fmt.Sprintf("println(fcount(%d))", mid)), opt)
+		if !obs[len(obs)-1].Err {
+			lo = mid
+		} else {
+			hi = mid - 1
+		}
+	}
+	return lo - 1
 }
 
 func c10Good(kind string, i int) string {
@@ -35,6 +55,10 @@ func c10Good(kind string, i int) string {
 		return fmt.Sprintf(`println("c%d", fadd(g, %d))`, i, i)
 	case "define":
 		return fmt.Sprintf(`func fnew%d(x) {x * g}; println(fnew%d(2))`, i, i)
+	case "loopvar":
+		return fmt.Sprintf(`for k%d = 2 {}; println("v%d", catch(k%d).err)`, i, i, i)
+	case "deep":
+		return fmt.Sprintf(`println("d%d", fcount(%d))`, i, c10DeepN)
 	default:
 		return "g = g + 1; println(g)"
 	}
@@ -54,6 +78,12 @@ func c10Fail(kind string) string {
 		return "fdeep(1)"
 	case "memory-guard":
 		return "fbig()"
+	case "panic-in-top-loop":
+		return "for i = 2 {fdeep(1)}"
+	case "memory-guard-top-level":
+		return "[1, 2] * 4000000000000"
+	case "depth-overflow-expression":
+		return strings.Repeat("-(", 400) + "1" + strings.Repeat(")", 400)
 	default: // deadline
 		return "for true {}"
 	}
@@ -131,6 +161,12 @@ func c10Sig(ops []c10Op) string {
 }
 
 func checkC10(c *Ctx) {
+	c10DeepN = c10Calibrate()
+	if c10DeepN < 20 {
+		c.Infra(fmt.Errorf("depth calibration failed: fcount(%d)", c10DeepN))
+		return
+	}
+	c.Cov("deep_recursion_n", c10DeepN)
 	cfg := func(maxOps int, bursts string, wr, lr, emit bool) string {
 		b := func(x bool) string {
 			if x {
@@ -210,8 +246,8 @@ func checkC10(c *Ctx) {
 	c.Cov("histories_emitted", n)
 	// random longer histories beyond the model-checked bound
 	rng := rand.New(rand.NewSource(c.Seed * 104729))
-	goods := []string{"print", "loop", "call", "define", "incr"}
-	fails := []string{"err-nested-calls", "err-in-top-loop", "err-in-nested-loops", "panic-in-function", "depth-overflow", "memory-guard"}
+	goods := []string{"print", "loop", "call", "define", "incr", "loopvar", "deep"}
+	fails := []string{"err-nested-calls", "err-in-top-loop", "err-in-nested-loops", "panic-in-function", "depth-overflow", "memory-guard", "panic-in-top-loop", "memory-guard-top-level", "depth-overflow-expression"}
 	for i := 0; i < c.Pick(150, 3000); i++ {
 		var ops []c10Op
 		for j := 0; j < 4+rng.Intn(10); j++ {
@@ -221,7 +257,7 @@ func checkC10(c *Ctx) {
 				ops = append(ops, c10Op{"fail", fails[rng.Intn(len(fails))], 1 + rng.Intn(10)})
 			}
 		}
-		ops = append(ops, c10Op{"good", "loop", 1}, c10Op{"good", "print", 1})
+		ops = append(ops, c10Op{"good", "loop", 1}, c10Op{"good", "loopvar", 1}, c10Op{"good", "deep", 1}, c10Op{"good", "print", 1})
 		in, fl := c10Inputs(ops)
 		cases = append(cases, hcase{ops, in, fl})
 	}
